@@ -64,7 +64,7 @@ def triple_record(av, bv, cv, x, dts):
             d['mab'] = d['ab']; d['mac'] = d['ac']; d['mbc'] = d['bc']
         # all-pairs form over ONE signature, written into a caller-supplied buffer that held other values: the single cell is d(A, A) = 0
         one = np.full((1, 1), 0.75, dtype=np.float32)
-        res1 = jaccarddist_pairwise(SignatureArray([A.astype(wide) if 'wide' in dir() else A], KmerSpec(16, 'ATG')), out=one)
+        res1 = jaccarddist_pairwise(SignatureArray([A], KmerSpec(16, 'ATG')), out=one)
         res2 = jaccarddist_pairwise([B], indices=[0])
         d['saa'] = f32_fields(res1[0][0]) if float(res2[0][0]) == 0.0 else f32_fields(res2[0][0])
         # two queries against the references given as a plain list, each array in ITS OWN integer type
